@@ -1057,6 +1057,7 @@ func main() {
 		}
 	}
 	if *replay == "" {
+		runAllocFaults(R, *seed, 40)
 		runReelections(R, *seed, 6)
 		runLifecycles(R, *seed, 16)
 		runParallelProbe(R, *seed)
